@@ -24,24 +24,6 @@ struct HashModel : Model {
     }
 };
 
-// pairs of distinct keys with the same full 32-bit hash, found once per process by a birthday search with the library's own
-// hash function (nothing hard-coded: if the hash changes the pairs change with it)
-static const std::vector<std::pair<Bytes, Bytes>> &collision_pairs() {
-    static std::vector<std::pair<Bytes, Bytes>> pairs;
-    static bool done = false;
-    if (done) return pairs;
-    done = true;
-    std::map<uint32_t, uint32_t> seen;
-    for (uint32_t i = 0; i < 400000 && pairs.size() < 6; i++) {
-        char b[16]; int n = snprintf(b, sizeof b, "c%u", i);
-        uint32_t hsh = qhashmurmur3_32(b, (size_t)n);
-        auto it = seen.find(hsh);
-        if (it != seen.end()) { char o[16]; snprintf(o, sizeof o, "c%u", it->second); pairs.push_back({Bytes(o), Bytes(b)}); }
-        else seen[hsh] = i;
-    }
-    return pairs;
-}
-
 struct HashWorld : World {
     std::vector<Bytes> keys;   // C strings without the terminator
     int U = 0; long range = 0; bool threadsafe = false, mt = false;
@@ -119,6 +101,7 @@ struct HashWorld : World {
     void sut_destroy(Ctx &) override { if (t) { InSut s; t->free(t); } t = nullptr; }
     void sut_abandon() override { t = nullptr; }
     void *sut_mutex() override { return t ? t->qmutex : nullptr; }
+    bool sut_user_lock() override { InSutLock s; t->lock(t); return true; }
     void sut_force_unlock() override { InSutLock s; t->unlock(t); }
     void sut_probe(Ctx &) override { InSut s; t->get(t, "probe-key", nullptr, false); }
 
@@ -198,11 +181,12 @@ struct HashWorld : World {
             bool newmem = op.d & 1;
             if (op.k == H_LOCKEDWALK) { InSutLock s; t->lock(t); }
             qhashtbl_obj_t o; memset(&o, 0, sizeof o);
-            std::vector<Bytes> seen; bool failed = false;
+            std::vector<Bytes> seen; bool failed = false; int fired_seen = sim_fault_fired(), retries = 0;
             size_t guard = t->num * 2 + 8;
             for (;;) {
                 bool more; { InSut s; more = t->getnext(t, &o, newmem); }
-                if (!more) { if (sim_fault_fired() > 0) failed = true; break; }
+                if (!more && newmem && sim_fault_fired() > fired_seen && retries < 1) { fired_seen = sim_fault_fired(); retries++; x.st.add("probe.walk_step_retried_after_enomem"); continue; }
+                if (!more) { if (sim_fault_fired() > fired_seen) failed = true; break; }
                 Bytes e; Bytes k(o.name), v((const char *)o.data, o.size);
                 enc(e, k); enc(e, v);
                 if (newmem) { x.hold(o.name, k + Bytes(1, '\0'), "hashtbl.getnext(newmem).name"); x.hold(o.data, v, "hashtbl.getnext(newmem).data"); }
